@@ -23,7 +23,7 @@ PROP = "C16"
 
 BOUNDS = {
     "quick": "(a) LRBF / LSEM: Dx=1, Dk<=2, Dy<=2 fully symbolic; heteroscedastic exp and cosh-1: Dx<=2, Dk<=2, Dy=Da=2 and Da>Dy; structure of condition_on_x at symbolic x; (b) assembly for all six classes with stubbed symbolic moments, Dx+Dy<=3",
-    "thorough": "(a) Dx=2, Dk=2 (covariance of p(x) concrete); (b) Dx=Dy=2 semi-symbolic",
+    "thorough": "(a) feature models up to Dx=3, Dk=3, Dy=3 (Dx=Dk=Dy=2 fully symbolic; larger with the covariance of p(x) concrete), batch of priors with Dx=2; heteroscedastic up to Dx=4 / Dy=Da=Dk=3; (b) Dx=Dy=2 semi-symbolic",
 }
 ASSUMPTIONS = ["(b) replaces get_expected_moments / get_expected_cross_terms on the instance by fresh symbolic moments (stub): the assembly code is verified for arbitrary moments, the moment code separately in (a)",
                "step and rectified-linear link moments are covered for Dx = 1 only (cdf abstracted to a field generator with the axioms in gtverif/phi.py)",
@@ -302,18 +302,30 @@ def cases(tier, seed=0):
         out.append(feature_moments_case(model, 1, 2, 1))
         out.append(feature_moments_case(model, 1, 1, 2))
         out.append(feature_moments_case(model, 1, 2, 1, Rx=2))     # batch of priors x several kernels: (prior, kernel) layouts
+        out.append(feature_moments_case(model, 2, 2, 1, semi=("Sx",), timeout=900))
         if tier == "thorough":
             out.append(feature_moments_case(model, 1, 2, 2, timeout=3000))
             out.append(feature_moments_case(model, 2, 1, 1, semi=("Sx",), timeout=3000))
             out.append(feature_moments_case(model, 2, 2, 1, semi=("Sx", "Sy"), timeout=3000))
+            out.append(feature_moments_case(model, 2, 2, 2, timeout=3000))                       # fully symbolic, 30 variables
+            out.append(feature_moments_case(model, 2, 3, 2, semi=("Sx",), timeout=3000))
+            out.append(feature_moments_case(model, 3, 2, 1, semi=("Sx",), timeout=3000))
+            out.append(feature_moments_case(model, 2, 2, 1, Rx=2, semi=("Sx",), timeout=3000))
+            if model == "lsem":        # (the RBF variant of this size needs 35-45 min per run: left out)
+                out.append(feature_moments_case(model, 3, 3, 2, semi=("Sx", "Sy"), timeout=3000))
+            out.append(feature_moments_case(model, 1, 3, 3, timeout=3000))
     for link in ("exp", "cosh"):
         out.append(het_moments_case(link, 1, 2, 2, 1))
         out.append(het_moments_case(link, 2, 2, 2, 2))
         out.append(het_moments_case(link, 1, 1, 2, 2))       # Da > Dy
         out.append(het_moments_case(link, 2, 1, 1, 1))
+        out.append(het_moments_case(link, 3, 3, 3, 3, semi=("Sx",), timeout=900))
         if tier == "thorough":
             out.append(het_moments_case(link, 2, 2, 3, 2, timeout=3000))
             out.append(het_moments_case(link, 3, 2, 2, 2, semi=("Sx",), timeout=3000))
+            out.append(het_moments_case(link, 3, 3, 3, 2, timeout=3000))
+            out.append(het_moments_case(link, 2, 3, 3, 3, timeout=3000))
+            out.append(het_moments_case(link, 4, 2, 2, 2, semi=("Sx",), timeout=3000))
     for link in ("step", "relu"):
         for wsign in (1, -1):
             out.append(het_trunc_moments_case(link, wsign, 1, 1))
